@@ -57,6 +57,21 @@ def match_known(prop, violation, known=None):
     return None
 
 
+_DUMP = {"f": None}
+
+
+def digest_dump(key, digest):
+    """Self-test hook: when VERIF_DIGEST_DUMP is set every run's event-log digest is
+    appended to a per-process file, so that two executions can be diffed run by run."""
+    base = os.environ.get("VERIF_DIGEST_DUMP")
+    if not base:
+        return
+    if _DUMP["f"] is None:
+        _DUMP["f"] = open(f"{base}.{os.getpid()}", "a")
+    _DUMP["f"].write(f"{key} {digest}\n")
+    _DUMP["f"].flush()
+
+
 class Stats:
     """Mergeable statistics: ints are summed, dicts merged recursively, sets united (with
     a cap), lists concatenated (capped)."""
@@ -168,7 +183,7 @@ def spawn_workers(prop, tier, seed, nworkers, outdir, extra_env=None, hashseed_o
     for w in range(nworkers):
         env = dict(os.environ)
         env["PYTHONPATH"] = VERIF_ROOT + (":" + env["PYTHONPATH"] if env.get("PYTHONPATH") else "")
-        env["PYTHONHASHSEED"] = str(hashseed_of(w) if hashseed_of else 0)
+        env["PYTHONHASHSEED"] = str(hashseed_of(w) if hashseed_of else int(os.environ.get("VERIF_HASHSEED_BASE", "0")))
         env["PYTHONDONTWRITEBYTECODE"] = "1"
         if extra_env:
             env.update(extra_env)
